@@ -262,6 +262,17 @@ func (s *Server) parseSearchScanBaseTokens(
 ) (
 	vsout []string, tout searchScanBaseTokens, err error,
 ) {
+	// The Lua states taken from the pool for WHEREEVAL tokens are only
+	// handed to the caller when parsing succeeds. On any error they must go
+	// back to the pool here, the caller never sees them.
+	defer func() {
+		if err != nil {
+			for _, whereeval := range t.whereevals {
+				whereeval.Close()
+			}
+		}
+	}()
+
 	var ok bool
 	if vs, t.key, ok = tokenval(vs); !ok || t.key == "" {
 		err = errInvalidNumberOfArguments
@@ -415,11 +426,15 @@ func (s *Server) parseSearchScanBaseTokens(
 				if err != nil {
 					return
 				}
+				// until it is added to t.whereevals below, the state is
+				// released through this owner on the error returns
+				whereeval := whereevalT{c: s, luaState: luaState}
 
 				argsTbl := luaState.CreateTable(len(vs), 0)
 				for i = 0; i < nargs; i++ {
 					if vs, arg, ok = tokenval(vs); !ok || arg == "" {
 						err = errInvalidNumberOfArguments
+						whereeval.Close()
 						return
 					}
 					argsTbl.Append(lua.LString(arg))
@@ -450,18 +465,19 @@ func (s *Server) parseSearchScanBaseTokens(
 					}
 				} else if scriptIsSha {
 					err = errShaNotFound
+					whereeval.Close()
 					return
 				} else {
 					fn, err = luaState.Load(strings.NewReader(script), "f_"+shaSum)
 					if err != nil {
 						err = makeSafeErr(err)
+						whereeval.Close()
 						return
 					}
 					s.luascripts.PutLRU(shaSum, fn.Proto)
 				}
-				t.whereevals = append(t.whereevals, whereevalT{
-					c: s, luaState: luaState, fn: fn,
-				})
+				whereeval.fn = fn
+				t.whereevals = append(t.whereevals, whereeval)
 				continue
 			case "nofields":
 				vs = nvs
